@@ -80,6 +80,9 @@ func (g *Gen) quoRemPair() (x, y d128.Decimal) {
 
 func genC03(g *Gen) {
 	g.setMode(0)
+	g.pairGrid(0.4, func(x, y d128.Decimal) {
+		g.bin("QuoRem", x, y, g.r.Intn(6))
+	})
 	for !g.w.full() {
 		var x, y d128.Decimal
 		k := 2
@@ -209,6 +212,29 @@ func (g *Gen) cmpAll(x, y d128.Decimal) {
 
 func genC04(g *Gen) {
 	g.setMode(0)
+	g.encodingGrid(0.08, func(x d128.Decimal) {
+		g.un("IsZero", x)
+		g.un("Sign", x)
+		g.un("Signbit", x)
+		z := mk(g.r.Intn(2) == 0, new(big.Int), randExp(g.r))
+		g.bin2("Cmp", x, z)
+		g.bin2("Cmp", z, x)
+		g.bin2("CmpAbs", z, x)
+		g.bin2("Equal", z, x)
+		g.bin2("Max", z, x)
+		g.bin2("Min", x, z)
+	})
+	g.pairGrid(0.45, func(x, y d128.Decimal) {
+		g.bin2("Cmp", x, y)
+		g.bin2("CmpAbs", x, y)
+		g.bin2("CmpAbs", y, x)
+		g.bin2("Equal", x, y)
+		g.bin2("Compare", x, y)
+		if g.r.Intn(2) == 0 {
+			g.bin2("Min", x, y)
+			g.bin2("Max", x, y)
+		}
+	})
 	for !g.w.full() {
 		if g.r.Intn(6) == 0 {
 			if a, b, ok := g.wordCollision(); ok {
